@@ -1,7 +1,7 @@
 SPECIFICATION Spec
 CONSTANTS Nib = {0, 1, 15}
           KeyLen = 2
-          Vals = {10, 331}
+          Vals = {281, 291}
           Pad = 0
           MaxKeys = 3
           EmitRows = TRUE
